@@ -104,7 +104,8 @@ class Same(Shape):
 class Prop:
     """Attribute of an abstract object: a stable field (fresh symbol on first read) unless `fn` given."""
 
-    def __init__(self, kind=None, fn=None, settable=False, const=None):
+    def __init__(self, kind=None, fn=None, settable=False, const=None, native=None):
+        self.native = native        # native twin of fn: callable(stub) -> value
         self.kind = kind            # Kind, or an Abs shape for a nested abstract object
         self.fn = fn
         self.settable = settable
@@ -177,7 +178,9 @@ class Loop:
 class Contract:
     def __init__(self, id, target, props, inputs, call=None, requires=(), ensures=None, ensures_raise=None,
                  ensures_all=None, callees=None, loops=None, canary=None, assume=(), receiver=None,
-                 covers=None, note='', kwargs=None, as_property=False, bounded=None, l0=(), native_gens=None, searchable=True):
+                 covers=None, note='', kwargs=None, as_property=False, bounded=None, l0=(), native_gens=None, searchable=True,
+                 clause_props=None):
+        self.clause_props = clause_props or {}  # {clause name: [property ids]}; default: every property of the contract
         self.native_gens = native_gens or {}    # {input name: f(gen, values so far)} generators for the bounded search
         self.searchable = searchable
         self.id = id
